@@ -61,7 +61,7 @@ def is_stem_prefix(a, b):
     return same_pl(a, b.prefix(len(a.stems)))
 
 
-SPARSE_MARKS = (0, 1, 72, 73, 74, 75, 146, 147, 148, 149, 220, 221, 222, 223)
+SPARSE_MARKS = (0, 1, 72, 73, 74, 75, 146, 147, 148, 149, 220, 221, 222, 223, 294, 295, 296, 297)
 
 
 def filler(i):
